@@ -250,6 +250,12 @@ func Apply(l *Live, s *State, ev Event, tpls Templates) *StepOut {
 		e := &v1.ExtendedDaemonSet{}
 		must(in.Get(ctx, types.NamespacedName{Namespace: ns, Name: name}, e))
 		switch {
+		case strings.HasPrefix(ev.B, "set-label:"):
+			kv := strings.SplitN(strings.TrimPrefix(ev.B, "set-label:"), "=", 2)
+			if e.Labels == nil {
+				e.Labels = map[string]string{}
+			}
+			e.Labels[kv[0]] = kv[1]
 		case ev.B == "drop-canary":
 			e.Spec.Strategy.Canary = nil
 		case strings.HasPrefix(ev.B, "canary-replicas=") && e.Spec.Strategy.Canary != nil:
